@@ -67,12 +67,24 @@ def run_case(spec):
   micros = spec['idx'] % 9 == 4           # metrics stored as int64 micro-units
   exp = gen.gen_experiment(r, g, extras=extras, cost_mode=scenario, date_style=date_style, int_dtype=(10 ** 6 if micros else None))
   frame = exp['frame']
+  blank_date = None
+  if spec['idx'] % 10 == 7 and not micros:
+    # on one test / cooldown date nobody reported the metric (all values missing): the date is still an experiment
+    # date and keeps its row in the report
+    cands = [d for d, p_ in zip(exp['dates'], exp['periods']) if p_ in (1, 2)]
+    if len(cands) >= 2:
+      blank_date = r.choice(cands[1:])
+      frame = frame.copy()
+      for c_ in ('response', 'cost'):
+        frame[c_] = frame[c_].astype(float)
+        frame.loc[frame['date'] == blank_date, c_] = float('nan')
+      exp = dict(exp, frame=frame)
   level = r.choice([0.9, 0.8, 0.95, 0.5, 0.99, round(r.uniform(0.05, 0.97), 3), 0.3])
   tails = r.choice([1, 2])
   counters = collections.Counter()
   violations = []
   desc = {k: exp[k] for k in ('n_pre', 'n_test', 'n_cool', 'n_ctl', 'n_trt', 'shape', 'extras', 'lift', 'int_dtype')}
-  desc.update(date_style=date_style, scenario=scenario, metric=metric, level=level, tails=tails)
+  desc.update(blank_date=str(blank_date) if blank_date is not None else None, date_style=date_style, scenario=scenario, metric=metric, level=level, tails=tails)
   fpkey = [scenario, metric, tails, exp['shape'], exp['n_pre'], exp['n_test'], exp['n_cool'], sorted(extras), level]
 
   def add(clause, mech, detail):
